@@ -1,0 +1,12 @@
+//go:build verif
+
+package main
+
+//@ func IndexCar
+//@   noerrprop
+//@   call[Header.WriteTo#0] assert an_indexless_wrap_declares_no_index [C10]: arg0.IndexOffset == 0
+//@   call[Header.WriteTo#0] assert the_header_follows_the_pragma_on_the_output [C10]: ref(arg1) == ref(outStream__2) && executed("File.Write#0")
+//@   call[Header.WriteTo#1] assert the_header_follows_the_pragma_on_the_output [C10]: ref(arg1) == ref(outStream__2) && executed("File.Write#1")
+//@   call[io.Copy#1] assert the_payload_is_copied_as_it_is [C10]: ref(arg0) == ref(outStream__2) && ref(arg1) == ref(v1r)
+//@   call[Index.Load#0] assert every_record_collected_is_loaded [C10]: ref(arg0) == ref(idx) && arg1 == records
+//@   call[index.WriteTo#0] assert the_loaded_index_follows_the_payload [C10]: ref(arg0) == ref(idx) && ref(arg1) == ref(outStream__2)
